@@ -125,6 +125,9 @@ def apply_variant(kern, variant):
                 kern, {"number_of_layers": int(variant[5:])})
     else:
         raise HarnessError(f"unknown variant {variant}")
+    # A transformed kernel always has its PSyIR schedule already; creating
+    # it here also keeps the expensive parse out of the scheduled threads.
+    kern.get_kernel_schedule()
     kern.modified = True
 
 
